@@ -29,7 +29,7 @@ var c08 = core.Register(&core.Prop{
 	Shards: func(tier string) int { return pickTier(tier, 8, 16) },
 	Floors: func(c map[string]int64, tier string) []string {
 		var out []string
-		for _, k := range []string{"order_comparisons", "pairs", "repeat_evaluations", "foreign_operations", "tree_dumps_compared", "error_results_repeated", "value_results_repeated", "field_analyses", "shared_data_runs"} {
+		for _, k := range []string{"order_comparisons", "pairs", "repeat_evaluations", "foreign_operations", "tree_dumps_compared", "error_results_repeated", "value_results_repeated", "field_analyses", "shared_data_runs", "kept_results_compared"} {
 			if c[k] == 0 {
 				out = append(out, "coverage floor: no "+k)
 			}
@@ -67,6 +67,12 @@ func outcome(v interface{}, err error, panicked bool, pv interface{}) string {
 }
 
 func evalTree(sc *formula.SourceCode, data val.V) string {
+	_, o := evalTreeKeep(sc, data)
+	return o
+}
+
+// evalTreeKeep also hands back the value itself (to look at it again later).
+func evalTreeKeep(sc *formula.SourceCode, data val.V) (interface{}, string) {
 	m, _ := val.Build(data, &val.Env{}).(map[string]interface{})
 	r := formula.NewRunner()
 	r.SetThis(m)
@@ -75,7 +81,7 @@ func evalTree(sc *formula.SourceCode, data val.V) string {
 	ctx, release := hostCtxFor(sc)
 	defer release()
 	p, pv := core.Call(func() { v, err = r.Resolve(ctx, sc.Expression) })
-	return outcome(v, err, p, pv)
+	return v, outcome(v, err, p, pv)
 }
 
 func fieldsOf(sc *formula.SourceCode) string {
@@ -132,7 +138,7 @@ var c08Pure = core.Mon(c08, "repeat-and-interleave", func(w *core.W, c *PureCase
 	if strings.ContainsAny(c.Src, "+-*/%(.<>=&|!?~[") {
 		w.Nontrivial(c.Src + "\x00" + core.HashStr(c.Data))
 	}
-	first := evalTree(sc, c.Data)
+	firstVal, first := evalTreeKeep(sc, c.Data)
 	f0 := fieldsOf(sc)
 	w.Count("field_analyses")
 	if o2, f2 := evalTree(sc2, c.Data), fieldsOf(sc2); !clock && (o2 != first || f2 != f0) {
@@ -215,6 +221,16 @@ var c08Pure = core.Mon(c08, "repeat-and-interleave", func(w *core.W, c *PureCase
 					onShared(fsc)
 				}
 			}
+		}
+	}
+	// the value handed back by the very first evaluation is the caller's from then on: nothing evaluated since
+	// (by this or any other runner) may have changed it
+	if strings.HasPrefix(first, "VALUE") {
+		w.Count("kept_results_compared")
+		if now := outcome(firstVal, nil, false, nil); now != first {
+			w.Violation("repeat-and-interleave", "C08/returned-value-changed-later", c, clipS(first, 300), clipS(now, 300),
+				fmt.Sprintf("the value returned by the first evaluation of %q reads differently after %d further evaluations", clipS(c.Src, 120), c.Reps))
+			return
 		}
 	}
 	w.Count("tree_dumps_compared")
